@@ -1212,6 +1212,12 @@ impl<'p> World<'p> {
                 self.stats.bump("deliver:authentic");
                 // decodable under the requested payload kind?
                 let claims_for_kind = convert_claims(&t.claims, pk);
+                // a footer the requested footer type cannot hold (not JSON for a Json footer, not empty for
+                // the unit footer): the reader was asked for something else than was sealed
+                if convert_foot(&t.footer, &t.footer_bytes, fk).is_none() {
+                    self.stats.bump(if r.is_ok() { "deliver:footer-kind-mismatch-accepted" } else { "deliver:footer-not-of-the-requested-type" });
+                    return;
+                }
                 let accept = claims_for_kind.is_some() && eval_vspec(validator, claims_for_kind.as_ref().unwrap(), now_ns);
                 match (&r, accept) {
                     (Out::Ok((c, f)), true) => {
